@@ -57,6 +57,11 @@ K_PARA = "closing-border-dropped-when-paragraph-component-on-page"
 K_FIRST1 = "first-placed-table-component-not-closed-on-single-page"
 K_PERCOL = "per-column-border-top-overrides-body-border-first"
 K_MULTI_TOP = "multi-section-headerless-first-section-top-is-body-border-first"
+K_OFF_DEFAULT = "as-colheader-false-with-textless-header-top-is-body-border-first"
+# RTFBody(as_colheader=False) + RTFColumnHeader without text renders NO header row, but the first data row still gets
+# rtf_body.border_first instead of rtf_page.border_first on the unchanged tree (reported to the lead; proposed finding in
+# notes/proposed_findings/C07.json).  The cell is enumerated only when this is True.
+ENUMERATE_ASCOLHEADER_OFF_WITH_TEXTLESS_HEADER = True
 
 
 def got_style(cell, side):
@@ -177,10 +182,13 @@ def _judge(spec, b, out) -> dict:
 
     strat = "page_by" if spec.get("page_by") else "subline_by" if spec.get("subline_by") else "plain"
     if multi:
-        has_header = any(s.get("header", "default") != "none" for s in spec["sections"][:1])
         strat = "multi"
-    else:
-        has_header = spec.get("header", "default") != "none"
+    # "is there a column header above the first data row" is decided from what is RENDERED on page 1 (a header row in
+    # front of the first data row), not from how the configuration spells it (explicit text, [], [None], as_colheader)
+    p0 = pages[0][0]
+    first_data_p0 = next((i for i, t in enumerate(p0) if t[1] == "data"), len(p0))
+    has_header = any(t[1] == "header" for t in p0[:first_data_p0])
+    bump("first-page-header=" + ("rendered" if has_header else "absent"))
     # the property excludes page_by without column headers from the top-edge clause(s)
     skip_top = strat == "page_by" and not has_header
 
@@ -201,6 +209,10 @@ def _judge(spec, b, out) -> dict:
             viol.append({"klass": None, "sig": "first-page-without-table-row", "detail": "page 1 has no table row"})
         if any(g != PF for g in _row_edge(frow, "t")):
             klass = None
+            if (not multi and not has_header and frole == "data" and spec.get("as_colheader") is False
+                    and spec.get("header", "default") == "default"
+                    and all(g == CODE[(spec.get("body") or {}).get("border_first", "single")] for g in _row_edge(frow, "t"))):
+                klass = K_OFF_DEFAULT
             if multi and not has_header and frole == "data":
                 # narrow: [None] headers for section 1 count as "has column headers", so the first data
                 # row gets section 1's body border_first (all cells) instead of the page border_first
@@ -461,6 +473,8 @@ def plan(run):
         "the four settings x a 2-page anchor set; per-cell user-border matrices on interior rows of one-page documents; header variants "
         "(auto header, two header rows, pageby_header=False); exactly one of rtf_page.border_last / rtf_body.border_last = '' with distinct own "
         "border_bottom on table-rendered footnote/source x the 162 cells x sizes (x strategies), each document encoded twice and both outputs judged; "
+        "rtf_body.as_colheader {True, False} x header {explicit text, [], text-less} x strategies x sizes (the combination False + text-less header is "
+        "left out: see ENUMERATE_ASCOLHEADER_OFF_WITH_TEXTLESS_HEADER); "
         "pages with exactly one data row (first / middle / last page; page_by new_page=True with pageby_row='column' and group sizes [1,3] [2,1,2] [3,1] [1,1,2]; "
         "plain tables with a one-row tail page) under per-column 1 x ncol user borders, each document encoded twice and both outputs judged; "
         "table-rendered footnote / source with blank texts ' ' / '  ' (each alone, both, next to a paragraph one) x placements x sizes; "
@@ -477,6 +491,7 @@ def plan(run):
         "another style; '' / None for border_first settings is not enumerated)",
         "documents of the empty-closing-style layer are encoded twice and both outputs are judged by the same oracle (the property holds for every encode)",
         "page_by without column headers is excluded from both top-edge statements (first table row of the document, first data row of a page), as the property's quantifier says",
+        "'there is no column header' is decided from the rendered output: no header row in front of the first data row of page 1",
         "with page_by and column headers 'the first data row of every page' is read literally: the first row carrying data cells, i.e. the row below the group heading row",
         "interior vertical edges are observed as the left edge of the right-hand cell; border_right is demanded on the last cell of a row only",
         "full per-row user-border matrices are enumerated on one-page documents only: on later pages the matrix is re-based per page (C09's finding), which is not this property's subject",
@@ -579,6 +594,23 @@ def plan(run):
                         em.append(table_spec(fn, src, pf, ps, hm, strat, "2", a, "scalar", **more))
     run.layer("one-empty-closing-style-encoded-twice", "mc.props.c07:eval_case", em, chunk=80, total=len(em))
 
+    # the body flag as_colheader x header mode: an explicit header text is rendered whatever the flag says, [] never, a
+    # text-less header only when the flag is True.  The top-edge clauses follow what is rendered.
+    ac = []
+    a = assignment(rots[0])
+    anchors5 = ((None, None), ("table", "para"), ("para", "table"), ("para", None), ("table", "table"))
+    for flag, hm in ((False, "explicit"), (False, "none"), (True, "default"), (True, "explicit"), (True, "none")) + (
+            ((False, "default"),) if ENUMERATE_ASCOLHEADER_OFF_WITH_TEXTLESS_HEADER else ()):
+        if quick and flag and hm != "default":
+            continue    # flag True with explicit / no header is the core product itself
+        for strat in ("plain", "page_by", "subline_by"):
+            for sc in ("1", "2", "3"):
+                for fn, src in (anchors5 if quick else itertools.product(MODES, repeat=2)):
+                    for pf, ps in ((("all", "all"), ("first", "last"), ("last", "first")) if quick else itertools.product(PLACE, repeat=2)):
+                        for um in (("scalar",) if quick else ("default", "scalar")):
+                            ac.append(table_spec(fn, src, pf, ps, hm, strat, sc, a, um, as_colheader=flag))
+    run.layer("as_colheader-flag-x-header-mode", "mc.props.c07:eval_case", ac, chunk=60, total=len(ac))
+
     # pages holding exactly ONE data row, also in the middle of the document, under per-column (1 x ncol) user borders that
     # span every displayed column (no column removed): page_by with new_page=True / pageby_row="column" and group sizes
     # with a one-row group first, in the middle and last; plain tables whose tail page has one row.  Every document is
@@ -645,7 +677,7 @@ def plan(run):
                  "plain:pages=3", "page_by:pages=3", "subline_by:pages=3",
                  "doc-closing-row=data", "doc-closing-row=footnote_table", "doc-closing-row=source_table",
                  "page-closing-row=data", "page-closing-row=footnote_table", "page-closing-row=source_table",
-                 "c1-excluded-page_by-without-header", "one-data-row-pages", "one-data-row-pages-followed-by-pages", "multi-c5-edges", "multi-c5-joint-top-edges", "multi-c5-joint-bottom-edges",
+                 "c1-excluded-page_by-without-header", "first-page-header=rendered", "first-page-header=absent", "one-data-row-pages", "one-data-row-pages-followed-by-pages", "multi-c5-edges", "multi-c5-joint-top-edges", "multi-c5-joint-bottom-edges",
                  "c2-empty-page-border_last", "c3-empty-body-border_last",
                  "repeated-encodes-judged"):
         if not run.cnt.get(need):
